@@ -256,7 +256,9 @@ def snap(x: float):
     """float -> Sym following DESIGN.md 2.4 (decimal literal semantics, pi/ln10 multiples)."""
     if x != x or x in (math.inf, -math.inf):
         raise SymDomainError("non-finite constant %r reached symbolic arithmetic" % (x,))
-    if abs(x) <= 1e-30:
+    if abs(x) <= 1e-15:
+        # round-off residue of concrete trigonometry (cos(pi/2) = 6e-17) and regularisers (1e-50) are zero;
+        # every behaviour-relevant threshold in the code base (1e-10, 1e-6, viscosities 3e-7) is far larger
         return ZERO
     if x == int(x) and abs(x) < 1e15:
         return const(int(x))
